@@ -56,31 +56,44 @@ Definition extends (present : bytes -> Prop) (u u' : uidl) : Prop :=
 Definition key_unused (m : fs) (k : bytes) : Prop :=
   forall f s i, live s = true -> lookup m (PMsg f s k i) = None.
 
-Inductive legal (m : fs) : fsop -> Prop :=
-| L_creat p : junk p = true -> legal m (OCreat p)
-| L_write p c : junk p = true -> legal m (OWrite p c)
-| L_unlink_junk p : junk p = true -> legal m (OUnlink p)
-| L_utime p : legal m (OUtime p)
-| L_mkdir p : legal m (OMkdir p)
-| L_mdf f : legal m (OCreat (PCtl f CMdf))
-| L_link f s k i :
-    live s = true -> key_unused m k ->
-    legal m (OLink (PMsg f STmp k []) (PMsg f s k i))
+(* file names the uid list can record: a key without colon, printable info *)
+Definition wf_key (k : bytes) : bool := forallb value_char k.
+Definition wf_info (i : bytes) : bool := forallb name_char i.
+
+(* the rename collides with nothing: no two entries end up under one path
+   (on a real filesystem: the destination name and everything below it is
+   free, which rename(2) itself guarantees for a directory) *)
+Definition rename_ok (lay : layout) (m : fs) (a b : fname) : Prop :=
+  forall p q, In p (map fst m) -> In q (map fst m) ->
+              move_path lay a b p = move_path lay a b q -> p = q.
+
+Inductive legal (lay : layout) (m : fs) : fsop -> Prop :=
+| L_creat p : junk p = true -> legal lay m (OCreat p)
+| L_write p c : junk p = true -> legal lay m (OWrite p c)
+| L_unlink_junk p : junk p = true -> legal lay m (OUnlink p)
+| L_utime p : legal lay m (OUtime p)
+| L_mkdir p : legal lay m (OMkdir p)
+| L_mdf f : legal lay m (OCreat (PCtl f CMdf))
+| L_link f s k i c :
+    live s = true -> key_unused m k -> wf_key k = true -> wf_info i = true ->
+    lookup m (PMsg f STmp k []) = Some (File (Opaque c)) ->
+    legal lay m (OLink (PMsg f STmp k []) (PMsg f s k i))
 | L_flags f s s' k i i' :
-    live s = true -> live s' = true ->
-    legal m (ORename (PMsg f s k i) (PMsg f s' k i'))
+    live s = true -> live s' = true -> wf_info i' = true ->
+    legal lay m (ORename (PMsg f s k i) (PMsg f s' k i'))
 | L_move f g s s' k i :
     live s = true -> live s' = true ->
-    legal m (ORename (PMsg f s k i) (PMsg g s' k i))
+    legal lay m (ORename (PMsg f s k i) (PMsg g s' k i))
 | L_expunge f s k i :
-    live s = true -> legal m (OUnlink (PMsg f s k i))
-| L_install f n t u' :
-    lookup m (PTmp f n) = Some (File (Text t)) ->
-    parse_uidl t = Ok u' -> uids_ok u' ->
+    live s = true -> legal lay m (OUnlink (PMsg f s k i))
+| L_install f n u' :
+    lookup m (PTmp f n) = Some (File (Text (print_uidl u'))) ->
+    wf_uidl u' = true -> uids_ok u' ->
     (forall u, uidl_at m f u -> extends (has_file m f) u u') ->
-    legal m (ORename (PTmp f n) (PCtl f CUidl))
-| L_subs n : legal m (ORename (PTmp [] n) (PCtl [] CSubs))
-| L_unsubs : legal m (OUnlink (PCtl [] CSubs)).
+    legal lay m (ORename (PTmp f n) (PCtl f CUidl))
+| L_subs n : legal lay m (ORename (PTmp [] n) (PCtl [] CSubs))
+| L_unsubs : legal lay m (OUnlink (PCtl [] CSubs))
+| L_renamedir a b : rename_ok lay m a b -> legal lay m (ORenameDir a b).
 
 (* the keys an operation may affect: flags changed, moved away or expunged *)
 Definition touches (o : fsop) (k : bytes) : Prop :=
@@ -90,41 +103,52 @@ Definition touches (o : fsop) (k : bytes) : Prop :=
   | _ => False
   end.
 
+(* the name of folder f after the operation *)
+Definition moved_name (lay : layout) (o : fsop) (f : fname) : fname :=
+  match o with
+  | ORenameDir a b => match moved_folder lay a b f with Some g => g | None => f end
+  | _ => f
+  end.
+Definition moved_names (lay : layout) (l : list fsop) (f : fname) : fname :=
+  fold_left (fun f o => moved_name lay o f) l f.
+
 Record Inv (m : fs) : Prop := {
-  (* every uid list on disk is a completely written, readable one *)
+  (* every uid list on disk is a completely written one: the text of a
+     well-formed list that respects its counter *)
   inv_uidl : forall f n, lookup m (PCtl f CUidl) = Some n ->
-             exists t u, n = File (Text t) /\ parse_uidl t = Ok u /\ uids_ok u;
+             exists u, n = File (Text (print_uidl u)) /\ wf_uidl u = true /\ uids_ok u;
   (* a maildir key names at most one delivered file in the whole store *)
   inv_keys : forall f s i n f' s' i' n' k,
              live s = true -> live s' = true ->
              lookup m (PMsg f s k i) = Some n -> lookup m (PMsg f' s' k i') = Some n' ->
-             f = f' /\ s = s' /\ i = i'
+             f = f' /\ s = s' /\ i = i';
+  (* delivered files are message files with recordable names *)
+  inv_names : forall f s k i n, live s = true -> lookup m (PMsg f s k i) = Some n ->
+              wf_key k = true /\ wf_info i = true /\ exists c, n = File (Opaque c);
+  (* the association list has one entry per path *)
+  inv_nodup : NoDup (map fst m)
 }.
 
 (* a run: every operation legal in the state it is applied to, and applicable *)
 Inductive legal_run (lay : layout) : fs -> list fsop -> fs -> Prop :=
 | LR_nil m : legal_run lay m [] m
 | LR_cons m o m' l m'' :
-    legal m o -> apply_op lay m o = Some m' -> legal_run lay m' l m'' ->
+    legal lay m o -> apply_op lay m o = Some m' -> legal_run lay m' l m'' ->
     legal_run lay m (o :: l) m''.
 
 Definition touched (l : list fsop) (k : bytes) : Prop := Exists (fun o => touches o k) l.
 
-(* uid discipline between an earlier and a later state *)
-Definition uid_stable (m1 m2 : fs) : Prop :=
+(* uid discipline between an earlier and a later state; [g] is the later name
+   of the folder called f earlier *)
+Definition uid_stable_via (phi : fname -> fname) (m1 m2 : fs) : Prop :=
   forall f u1, uidl_at m1 f u1 ->
-  exists u2, uidl_at m2 f u2 /\ u_val u2 = u_val u1 /\ u_next u1 <= u_next u2
+  exists u2, uidl_at m2 (phi f) u2 /\ u_val u2 = u_val u1 /\ u_next u1 <= u_next u2
              /\ (forall uid k, recorded u2 uid k -> uid < u_next u1 -> recorded u1 uid k).
 
 (* ---- vocabulary of CommandProofs.v *)
 Definition no_install (o : fsop) (f : fname) : Prop :=
   forall n, o <> ORename (PTmp f n) (PCtl f CUidl).
 Definition no_link (o : fsop) : Prop := forall src dst, o <> OLink src dst.
-
-(* the names supplied with one message of an APPEND are printable, and the
-   maildir key contains no colon *)
-Definition wf_amsg (a : amsg) : bool :=
-  forallb value_char (a_key a) && forallb value_char (a_e a) && forallb value_char (a_t a).
 
 (* the uid list after one more message of an APPEND has been recorded *)
 Definition add_rec (u : uidl) (a : amsg) : uidl :=
